@@ -164,7 +164,21 @@ class Combo:
         self.n += 1
         return str(self.n)
 
+    def float_lit(self):
+        # the lexer takes [+-]digits.digits of at most 11 characters
+        r = self.r
+        sign = r.choice(["", "", "-", "+"])
+        ip = "".join(r.choice("0123456789") for _ in range(r.choice([1, 1, 2, 3, 5, 8])))
+        if r.random() < 0.3:
+            ip = "0" * r.choice([1, 2]) + ip[:3] if r.random() < 0.5 else "0"
+        fp = "".join(r.choice("0123456789") for _ in range(r.choice([0, 1, 2, 3, 6, 9])))
+        if r.random() < 0.25:
+            fp = "0" * r.choice([1, 3, 5, 7]) + fp[:2]
+        return (sign + ip + "." + fp)[:11]
+
     def frag(self):
+        if self.r.random() < 0.08:
+            return '(call "peerA" ("s" "floats") [%s])' % " ".join(self.float_lit() for _ in range(self.r.choice([1, 3, 6])))
         return self.r.choice(FRAGS).replace("{n}", self.fresh())
 
     def go(self, d, weights):
